@@ -617,7 +617,7 @@ func BuildProbes(doc *yaml.Node) *Probes {
 			bare[k] = v
 		}
 		add(i, syslogLine(bare, infos[i].levels), -1)
-		long := rawFields(map[string]string{"log": "Foo " + strings.Repeat("long € message ", 600)}, infos[i].steps)
+		long := rawFields(map[string]string{"log": "Foo " + strings.Repeat("long € message ", 100)}, infos[i].steps)
 		add(i, syslogLine(long, infos[i].levels), -1)
 		mail := rawFields(map[string]string{"log": `Foo user bob@example.com said \"hi\"\n\ttab password=secret params=1`}, infos[i].steps)
 		add(i, syslogLine(mail, infos[i].levels), -1)
